@@ -40,6 +40,7 @@ def plan(tier):
         return label.startswith(("S3.", "S2.", "S1.", "S4.", "R1.")) or label in ("R2.response-code", "R2.classified-text-is-the-first-line")
 
     pl.label_filter = lf
+    pl.static = [lambda: common.shape_selftest_obs(PID)]
     pl.bounded = [bounded]
     pl.functions = [("sievelib.managesieve", "Client.%s" % m) for m in client.SCRIPT_METHODS] + \
                    [("sievelib.managesieve", "Client.__read_line"), ("sievelib.managesieve", "Client.__parse_error")]
